@@ -128,14 +128,15 @@ def isConstantField : Val → Bool
   | .int _ => true | .flt _ => true | _ => false
 
 /-- `_cell_to_long_dict`: per scenario, per field of that scenario's dict, one row -/
-def cellLongRows (c : Cell) (mdNames : List String) : Except Err (List Row) := do
-  let fds ← cleanFieldDicts c c.values.keys
-  pure <| (List.zip (List.range fds.length) fds).flatMap fun (ndx, fd) =>
-    fd.map fun (f, q) =>
-      Dict.union (Dict.union (baseDict c) (metadataDict c mdNames))
-        [("scenario", if ((Dict.get? c.values f).map isConstantField).getD false then MVal.none
-                      else MVal.num ((ndx : Nat) + 1 : Nat)),
-         ("field", MVal.str f), ("value", MVal.num q)]
+def longRow (c : Cell) (mdNames : List String) (ndx : Nat) (kv : String × Rat) : Row :=
+  Dict.union (Dict.union (baseDict c) (metadataDict c mdNames))
+    [("scenario", if ((Dict.get? c.values kv.1).map isConstantField).getD false then MVal.none
+                  else MVal.num ((ndx : Nat) + 1 : Nat)),
+     ("field", MVal.str kv.1), ("value", MVal.num kv.2)]
+
+def cellLongRows (c : Cell) (mdNames : List String) : Except Err (List Row) :=
+  (cleanFieldDicts c c.values.keys).map fun fds =>
+    (List.zip (List.range fds.length) fds).flatMap fun p => p.2.map (longRow c mdNames p.1)
 
 /-- `_drop_constant_scenario` (`df["scenario"]` on an empty frame raises `KeyError`) -/
 def eraseScenario (r : Row) : Row := r.filter (·.1 != "scenario")
@@ -299,55 +300,75 @@ def coreSet : List String :=
 def longDetailCols (cols lossDetailCols : List String) : List String :=
   cols.filter fun c => !coreSet.contains c && c != "field" && c != "value" && !lossDetailCols.contains c
 
+/-- `cells[index].values[field] = value` on the cell at `index`; a repeated field raises -/
+def addFieldTo (c : Cell) (f : String) (v : Val) (x : Cell) : Except Err Cell :=
+  if x.coord == c.coord then
+    if x.values.contains f then .error .other else .ok { x with values := x.values ++ [(f, v)] }
+  else .ok x
+
 /-- add a field to the cell at `index` (dict of cells keyed by coordinates + metadata, insertion
-order); a repeated field raises -/
+order), creating the cell when it is not there yet -/
 def addField (cells : List Cell) (c : Cell) (f : String) (v : Val) : Except Err (List Cell) :=
-  if cells.any (·.coord == c.coord) then
-    cells.mapM fun x =>
-      if x.coord == c.coord then
-        if x.values.contains f then .error .other else .ok { x with values := x.values ++ [(f, v)] }
-      else .ok x
-  else do
-    let c' ← ({ c with values := [(f, v)] } : Cell).mk?
-    pure (cells ++ [c'])
+  if cells.any (·.coord == c.coord) then cells.mapM (addFieldTo c f v)
+  else (Cell.mk? { c with values := [(f, v)] }).map fun c' => cells ++ [c']
+
+def longKey (cols detailCols lossDetailCols : List String) (r : Row) : List MVal :=
+  (groupCols "long_data_frame_to_triangle" detailCols lossDetailCols).map
+    (keyEntry cols detailCols lossDetailCols r)
+
+/-- `value = group_df["value"].values`, reduced to `value[0]` for a one-row group or an all-NaN
+scenario column -/
+def longGroupVal (cols : List String) (rows : List Row) : Option Val :=
+  let vs := rows.filterMap fun row => mvalNum? (Row.col row "value")
+  let scalar := rows.length == 1 ||
+    (cols.contains "scenario" && rows.all fun row => Row.col row "scenario" == .none)
+  match vs with
+  | q :: _ => some (if scalar then .flt q else .arr false [vs.length] vs)
+  | [] => none
+
+def longAdd (acc : List Cell) (c : Cell) (fld : MVal) (v : Option Val) : Except Err (List Cell) :=
+  match fld, v with
+  | .str f, some v => addField acc c f v
+  | _, _ => .error .other
+
+/-- one group (coordinates × field × metadata) of the cumulative long reader -/
+def longStep (cols detailCols lossDetailCols : List String) (acc : List Cell)
+    (g : List MVal × List Row) : Except Err (List Cell) :=
+  (sortGroup cols g.2).bind fun rows =>
+  match rows with
+  | [] => .error .other
+  | r :: _ =>
+    (mvalDate? (Row.col r "period_start")).bind fun ps =>
+    (mvalDate? (Row.col r "period_end")).bind fun pe =>
+    (mvalDate? (Row.col r "evaluation_date")).bind fun ev =>
+    longAdd acc { kind := .cumulative, ps := ps, pe := pe, ev := ev,
+                  md := rowMetadata r detailCols lossDetailCols }
+      (Row.col r "field") (longGroupVal cols rows)
+
+def fromLongCum (tb : Table) (lossDetailCols : List String) : Except Err (List Cell) :=
+  ((groupBy (longKey tb.cols (longDetailCols tb.cols lossDetailCols) lossDetailCols) tb.rows).foldlM
+    (longStep tb.cols (longDetailCols tb.cols lossDetailCols) lossDetailCols) []).bind Triangle.ofCells
+
+/-- one row of the incremental long reader: a 0-d array under the row's field -/
+def longIncrStep (detailCols lossDetailCols : List String) (acc : List Cell) (r : Row) :
+    Except Err (List Cell) :=
+  (mvalDate? (Row.col r "period_start")).bind fun ps =>
+  (mvalDate? (Row.col r "period_end")).bind fun pe =>
+  (mvalDate? (Row.col r "evaluation_date")).bind fun ev =>
+  (mvalDate? (Row.col r "prev_evaluation_date")).bind fun prev =>
+  longAdd acc { kind := .incremental, ps := ps, pe := pe, ev := ev, prev := some prev,
+                md := rowMetadata r detailCols lossDetailCols }
+    (Row.col r "field") ((mvalNum? (Row.col r "value")).map fun q => Val.arr false [] [q])
+
+def fromLongIncr (tb : Table) (lossDetailCols : List String) : Except Err (List Cell) :=
+  (tb.rows.foldlM (longIncrStep (longDetailCols tb.cols lossDetailCols) lossDetailCols) []).bind
+    Triangle.ofCells
 
 /-- `long_data_frame_to_triangle(df, loss_detail_cols)`; `long_csv_to_triangle` passes NO
 `loss_detail_cols`, so after a long CSV every loss-detail column is a `details` entry -/
-def fromLongRows (tb : Table) (lossDetailCols : List String := []) : Except Err (List Cell) := do
-  let detailCols := longDetailCols tb.cols lossDetailCols
-  if tb.cols.contains "prev_evaluation_date" then
-    let cells ← tb.rows.foldlM (fun (acc : List Cell) r => do
-      let ps ← mvalDate? (Row.col r "period_start")
-      let pe ← mvalDate? (Row.col r "period_end")
-      let ev ← mvalDate? (Row.col r "evaluation_date")
-      let prev ← mvalDate? (Row.col r "prev_evaluation_date")
-      let c : Cell := { kind := .incremental, ps := ps, pe := pe, ev := ev, prev := some prev,
-                        md := rowMetadata r detailCols lossDetailCols }
-      match Row.col r "field", Row.col r "value" with
-      | .str f, .num q => addField acc c f (.arr false [] [q])
-      | _, _ => .error .other) []
-    Triangle.ofCells cells
-  else
-    let keys := groupCols "long_data_frame_to_triangle" detailCols lossDetailCols
-    let groups := groupBy (fun r => keys.map (keyEntry tb.cols detailCols lossDetailCols r)) tb.rows
-    let cells ← groups.foldlM (fun (acc : List Cell) g => do
-      let rows ← sortGroup tb.cols g.2
-      match rows with
-      | [] => .error .other
-      | r :: _ =>
-        let ps ← mvalDate? (Row.col r "period_start")
-        let pe ← mvalDate? (Row.col r "period_end")
-        let ev ← mvalDate? (Row.col r "evaluation_date")
-        let c : Cell := { kind := .cumulative, ps := ps, pe := pe, ev := ev,
-                          md := rowMetadata r detailCols lossDetailCols }
-        let vs := rows.filterMap fun row => mvalNum? (Row.col row "value")
-        let scalar := rows.length == 1 ||
-          (tb.cols.contains "scenario" && rows.all fun row => Row.col row "scenario" == .none)
-        match Row.col r "field", vs with
-        | .str f, q :: _ =>
-          addField acc c f (if scalar then .flt q else .arr false [vs.length] vs)
-        | _, _ => .error .other) []
-    Triangle.ofCells cells
+def fromLongRows (tb : Table) (lossDetailCols : List String := []) : Except Err (List Cell) :=
+  if tb.cols.contains "prev_evaluation_date" then fromLongIncr tb lossDetailCols
+  else fromLongCum tb lossDetailCols
 
 /-! ## Array data frame (`io/array.py`) -/
 
@@ -364,42 +385,63 @@ def periodsOf (t : List Cell) : List (Date × Date) :=
 def setEntry (es : List (Int × Val)) (k : Int) (v : Val) : List (Int × Val) :=
   if es.any (·.1 == k) then es.map fun e => if e.1 == k then (k, v) else e else es ++ [(k, v)]
 
+/-- the cells of one period, as `period_rows` yields them: sorted by (metadata, evaluation date) -/
+def periodCells (filtered : List Cell) (p : Date × Date) : List Cell :=
+  (filtered.filter fun c => c.ps == p.1 && c.pe == p.2).mergeSort fun a b =>
+    compareLex (cmpOn (·.md) Metadata.cmp) (cmpOn (·.ev) Date.cmp) a b != .gt
+
+/-- `row[str(int(cell.dev_lag()))] = cell[field]` for the cells of a row (a later cell with the same
+integer lag overwrites) -/
+def rowEntries (cells : List Cell) (field : String) : List (Int × Val) :=
+  cells.foldl (fun es c =>
+    setEntry es (truncInt (c.devLag .month)) ((Dict.get? c.values field).getD .none)) []
+
+def arrayRowOf (filtered : List Cell) (field : String) (p : Date × Date) : ArrayRow :=
+  { period := p.1, entries := rowEntries (periodCells filtered p) field }
+
 /-- `triangle_to_array_data_frame(triangle, field)` -/
-def toArrayFrame (t : List Cell) (field : String) : Except Err (List ArrayRow) := do
-  let filtered ← Triangle.ofCells (t.filter fun c => c.values.contains field)
-  if (metasOf t).length > 1 then throw .valueError
-  if (match t with | c :: _ => c.kind == CellKind.incremental | [] => false) then throw Err.valueError
-  pure <| (periodsOf filtered).map fun p =>
-    let cells := (filtered.filter fun c => c.ps == p.1 && c.pe == p.2).mergeSort fun a b =>
-      compareLex (cmpOn (·.md) Metadata.cmp) (cmpOn (·.ev) Date.cmp) a b != .gt
-    { period := p.1,
-      entries := cells.foldl (fun es c =>
-        setEntry es (truncInt (c.devLag .month)) ((Dict.get? c.values field).getD .none)) [] }
+def toArrayFrame (t : List Cell) (field : String) : Except Err (List ArrayRow) :=
+  (Triangle.ofCells (t.filter fun c => c.values.contains field)).bind fun filtered =>
+  if (metasOf t).length > 1 then .error .valueError
+  else if (match t with | c :: _ => c.kind == CellKind.incremental | [] => false) then .error .valueError
+  else .ok ((periodsOf filtered).map (arrayRowOf filtered field))
 
 def valNum? : Val → Option Rat
   | .int i => some i | .flt q => some q
   | .arr _ _ [q] => some q
   | _ => none
 
-/-- `array_data_frame_to_triangle(df, field, period_resolution, metadata=md)` with integer column
-names and `eval_resolution=None`. `periodResolution = none` is the library's inference
+def addLag (acc : List Int) (k : Int) : List Int := if acc.contains k then acc else acc ++ [k]
+
+/-- the development-lag columns of the frame, in first-appearance order -/
+def frameCols (rows : List ArrayRow) : List Int :=
+  rows.foldl (fun acc r => r.entries.foldl (fun a e => addLag a e.1) acc) []
+
+/-- the period resolution: given, or the library's inference
 `int(round(calculate_dev_lag(p₀, p₁)))` from the first two period STARTS (before fix D19 the lag
-was truncated: 3 - 1/30 + 1/31 became 2). -/
+was truncated: 3 - 1/30 + 1/31 became 2) -/
+def frameResolution (rows : List ArrayRow) : Option Int → Except Err Int
+  | some r => .ok r
+  | none => match rows with
+    | r0 :: r1 :: _ => .ok (roundHalfEven (devLagMonths r0.period r1.period))
+    | _ => .error .valueError
+
+/-- the cell under column `lag` of row `r` (none when the entry is missing / NaN) -/
+def frameCell (field : String) (md : Metadata) (r : ArrayRow) (pe : Date) (lag : Int) : Option Cell :=
+  ((r.entries.find? (·.1 == lag)).bind fun e => valNum? e.2).map fun q =>
+    { kind := .cumulative, ps := r.period, pe := pe, ev := addMonths pe lag,
+      values := [(field, Val.flt q)], md := md }
+
+def rowCells (field : String) (md : Metadata) (res : Int) (cols : List Int) (r : ArrayRow) :
+    Except Err (List Cell) :=
+  (cols.filterMap (frameCell field md r (addMonths r.period res).pred)).mapM Cell.mk?
+
+/-- `array_data_frame_to_triangle(df, field, period_resolution, metadata=md)` with integer column
+names and `eval_resolution=None` -/
 def fromArrayFrame (rows : List ArrayRow) (field : String) (md : Metadata)
-    (periodResolution : Option Int := none) : Except Err (List Cell) := do
-  let res ← match periodResolution with
-    | some r => pure r
-    | none => match rows with
-      | r0 :: r1 :: _ => pure (roundHalfEven (devLagMonths r0.period r1.period))
-      | _ => throw .valueError
-  let cols : List Int := rows.foldl (fun acc r => r.entries.foldl (fun a e => if a.contains e.1 then a else a ++ [e.1]) acc) []
-  let cells ← rows.mapM fun r => do
-    let pe := (addMonths r.period res).pred
-    (cols.filterMap fun lag =>
-      match (r.entries.find? (·.1 == lag)).bind (fun e => valNum? e.2) with
-      | none => none
-      | some q => some ({ kind := .cumulative, ps := r.period, pe := pe, ev := addMonths pe lag,
-                          values := [(field, Val.flt q)], md := md } : Cell)).mapM Cell.mk?
+    (periodResolution : Option Int := none) : Except Err (List Cell) :=
+  (frameResolution rows periodResolution).bind fun res =>
+  (rows.mapM (rowCells field md res (frameCols rows))).bind fun cells =>
   Triangle.ofCells cells.flatten
 
 /-! ## Matrix (`io/matrix.py`, `matrix/index.py`) -/
